@@ -184,7 +184,8 @@ def tlc(area, module, cfg, env=None, workers=None, extra=(), timeout=3600, expec
     d = os.path.join(SPEC, area)
     meta = tempfile.mkdtemp(prefix="tlc_", dir=workdir())
     cmd = ["java", "-XX:+UseParallelGC", "-Xmx" + heap,
-           "-DTLA-Library=" + os.path.join(SPEC, "lib"),
+           "-DTLA-Library=" + os.pathsep.join([os.path.join(SPEC, "lib")] + sorted(
+               os.path.join(SPEC, x) for x in os.listdir(SPEC) if x != "lib" and x != area and os.path.isdir(os.path.join(SPEC, x)))),
            "-cp", JAR, "tlc2.TLC", "-metadir", meta, "-noGenerateSpecTE",
            "-workers", str(workers or NCPU), "-config", cfg]
     if simulate:
